@@ -1,0 +1,35 @@
+//go:build verif
+
+package hydra
+
+import (
+	"sync/atomic"
+
+	"github.com/hydraide/hydraide/app/core/hydra/swamp"
+)
+
+// VerifWaiterState returns the ready flag and the waiter count of a summon wait slot
+// (verification builds only).
+func VerifWaiterState(w *SwampWaiter) (ready bool, count int32) {
+	w.cond.L.Lock()
+	defer w.cond.L.Unlock()
+	return w.ready, atomic.LoadInt32(&w.count)
+}
+
+// VerifSummonSlot returns the wait slot currently mapped for a swamp name.
+func VerifSummonSlot(hy Hydra, swampName string) (*SwampWaiter, bool) {
+	v, ok := hy.(*hydra).summoningSwamps.Load(swampName)
+	if !ok {
+		return nil, false
+	}
+	return v.(*SwampWaiter), true
+}
+
+// VerifMappedSwamp returns the instance currently stored in the swamps map for a name.
+func VerifMappedSwamp(hy Hydra, swampName string) (swamp.Swamp, bool) {
+	v, ok := hy.(*hydra).swamps.Load(swampName)
+	if !ok {
+		return nil, false
+	}
+	return v.(swamp.Swamp), true
+}
